@@ -334,6 +334,21 @@ func GenC03(seed uint64, run int) *Trace {
 	if r.Chance(1, 5) {
 		opts.MaxIdxCid = 40
 	}
+	if r.Chance(1, 12) {
+		// a family of keys of one width that agree in their leading bytes (look-alike inline blocks, made-up
+		// digests): whatever orders or searches index entries must look at whole digests
+		kind := Pick(r, []string{"idp", "fam"})
+		size := r.Range(1, 12)
+		at := r.Intn(len(spec.Blocks) + 1)
+		var fam []BlkSpec
+		for i, n := 0, r.Range(3, 8); i < n; i++ {
+			fam = append(fam, BlkSpec{Kind: kind, Seed: uint64(500 + r.Intn(40)), Size: size})
+		}
+		spec.Blocks = append(spec.Blocks[:at:at], append(fam, spec.Blocks[at:]...)...)
+		if kind == "idp" {
+			opts.StoreID = true
+		}
+	}
 	return &Trace{Prop: "C03", Engine: "medium", Seed: seed, Run: run, Medium: &MediumSpec{Image: spec, All: true, Opts: opts, Del: sim.Delivery{ErrAt: -1}}}
 }
 
